@@ -131,13 +131,20 @@ Definition tk_rop (t : list Z) : option (rop * list Z) :=
   | _ => None
   end.
 
+(* the three "nothing happens" actions are indistinguishable from outside *)
+Definition obs_out (l : list Z) : list Z :=
+  match l with
+  | a :: r => (if (a =? A_TOKEN_REJECTED) || (a =? A_DROPPED) then A_IGNORED else a) :: r
+  | [] => []
+  end.
+
 Fixpoint exec_rt (fuel : nat) (s : rst) (t : list Z) : list Z :=
   match fuel with O => [] | S fuel =>
   match tk_rop t with
   | None => []
   | Some (o, t) =>
       let '(x, out, s') := rstep s o in
-      (match x with None => 0 | Some k => k end) :: out_list out ++ Zlen (tbl s') :: out_table (tbl s') ++ exec_rt fuel s' t
+      (match x with None => 0 | Some k => k end) :: out_list (obs_out out) ++ Zlen (tbl s') :: out_table (tbl s') ++ exec_rt fuel s' t
   end end.
 
 (* EXTRACT: exec_router *)
